@@ -725,7 +725,8 @@ pub fn check_main(prop: &dyn Prop, opts: &DriverOpts, extra: &dyn Fn(&Env, &mut 
     if opts.keep_digests {
         let slice: Vec<u64> = agg.digests.keys().copied().take(64).collect();
         for i in slice {
-            if crate::simrt::tainted() {
+            // (runs of this batch hung: nothing is executed in the driver process itself, which has no watchdog)
+            if crate::simrt::tainted() || agg.timeouts > 0 {
                 break;
             }
             let (_c, out) = run_one(prop, &env, i);
@@ -760,7 +761,7 @@ pub fn check_main(prop: &dyn Prop, opts: &DriverOpts, extra: &dyn Fn(&Env, &mut 
         reported.insert(group);
         violations += 1;
         let is_crash = f.oracle.starts_with("crash:") || f.oracle.starts_with("timeout");
-        let (min, steps) = if is_crash { (f.clone(), 0) } else { minimise(prop, &env, f, opts.minimise_budget) };
+        let (min, steps) = if is_crash || agg.timeouts > 0 { (f.clone(), 0) } else { minimise(prop, &env, f, opts.minimise_budget) };
         // a minimised failure may turn out to be a known finding
         if let Some(k) = matches_known(&findings, prop.id(), &min) {
             known_lines.insert(format!("KNOWN-FINDING: property={} {}", prop.id(), k.what));
